@@ -37,6 +37,12 @@ func allScenarios() []*Scenario {
 	add("C05", "del-del-counter", true, th(c("SET", "@k0", "a"), c("SET", "@k3", "b")), th(c("DEL", "@k0")), th(c("DEL", "@k0")), th(c("KEYS", "*")))
 	add("C05", "same-shard-other-stripe", true, nil, th(c("SET", "@k0", "a")), th(c("SET", "@k3", "b")), th(c("KEYS", "*"), c("EXISTS", "@k0"), c("EXISTS", "@k3")))
 	add("C05", "same-stripe-other-key", true, nil, th(c("INCR", "@k0"), c("DEL", "@k0")), th(c("INCR", "@k1"), c("DEL", "@k1")), th(c("KEYS", "*")))
+	// two clients ask for different patterns, one of them syntactically broken, over two keys in different
+	// shards: whatever the matcher shares between calls (a compiled / checked pattern, a scratch buffer)
+	// must not leak from one command into the other.  The seed's last KEYS leaves such state the same at
+	// the start of every execution.
+	add("C05", "keys-pattern-vs-keys-broken-pattern", true, th(c("SET", "@k0", "1"), c("SET", "@k2", "1"), c("KEYS", "warm*")), th(c("KEYS", "k?")), th(c("KEYS", "k[")))
+	add("C05", "keys-class-vs-keys-star", true, th(c("SET", "@k0", "1"), c("SET", "@k2", "1"), c("KEYS", "warm*")), th(c("KEYS", "k[a-z]")), th(c("KEYS", "*")))
 	add("C05", "keys-twice-vs-set", true, nil, th(c("KEYS", "*"), c("KEYS", "*")), th(c("SET", "@k0", "a")), th(c("SET", "@k2", "b")))
 	add("C05", "get-set", true, th(c("SET", "@k0", "a")), th(c("GET", "@k0"), c("GET", "@k0")), th(c("SET", "@k0", "b")))
 	add("C05", "lrange-rpush", true, th(c("RPUSH", "@k0", "a")), th(c("LRANGE", "@k0", "0", "-1"), c("LLEN", "@k0")), th(c("RPUSH", "@k0", "b", "c")))
